@@ -774,6 +774,9 @@ type RejectWhen struct {
 	ErrIdx    int // result index of the error/bool (default last)
 	// RejectIsTrue: for predicates like isExpired() the rejecting return is `true`.
 	RejectIsTrue bool
+	// RejectBy, when set, decides whether an exit is a rejecting one (e.g. a
+	// return reached with the fact "msg.Data = <error>" established).
+	RejectBy func(fl *Flow, ret *GNode) bool
 }
 
 // ReturnsRel requires that Fn has a live return whose result #Idx is exactly the
@@ -930,7 +933,9 @@ func (rw RejectWhen) Check(r *Run) {
 					continue
 				}
 				rej := false
-				if sent != nil {
+				if rw.RejectBy != nil {
+					rej = rw.RejectBy(fl, m)
+				} else if sent != nil {
 					rej = mentionsObj(fl.C.Info, m.Ast, sent)
 					if !rej {
 						// returned through a variable assigned the sentinel on this path
